@@ -204,8 +204,18 @@ pub fn explore_scenario(
     let mut tree = std::collections::hash_map::DefaultHasher::new();
     let mut found = None;
     stats.scenarios += 1;
+    // a scenario can carry its own, lower cap (tag "maxexecs=N"): the very large ones cost milliseconds per execution
+    let own_cap: Option<u64> = scn.tags.iter().find_map(|t| t.strip_prefix("maxexecs=").and_then(|c| c.parse().ok()));
+    let max_execs = own_cap.map(|c| c.min(lim.max_execs)).unwrap_or(lim.max_execs);
+    // ... or its own preemption bound (tag "bound=N")
+    let own_bound: Option<u32> = scn.tags.iter().find_map(|t| t.strip_prefix("bound=").and_then(|c| c.parse().ok()));
+    let bound: Option<u32> = match (lim.bound, own_bound) {
+        (Some(a), Some(b)) => Some(a.min(b)),
+        (None, b) => b,
+        (a, None) => a,
+    };
     while let Some(prefix) = stack.pop() {
-        if execs >= lim.max_execs {
+        if execs >= max_execs {
             capped = true;
             break;
         }
@@ -309,7 +319,7 @@ pub fn explore_scenario(
             if i >= prefix.len() {
                 for alt in 1..s.n {
                     let cost = pre + if s.cont { 1 } else { 0 };
-                    if lim.bound.map(|b| cost <= b).unwrap_or(true) {
+                    if bound.map(|b| cost <= b).unwrap_or(true) {
                         let mut p: Vec<u16> = chosen[..i].to_vec();
                         p.push(alt as u16);
                         alts.push(p);
